@@ -171,6 +171,14 @@ func c17Headers(c *c17Case, sessionCookie string) [][2]string {
 		}
 	case "big":
 		add("X-Big", strings.Repeat("0123456789", 400), "X-Big-2", strings.Repeat("z", 2000))
+	case "upg-h2c": // RFC 7540 §3.2 offer: an ordinary request that may be answered as it stands
+		add("Connection", "keep-alive, Upgrade, HTTP2-Settings", "Upgrade", "h2c", "HTTP2-Settings", "AAMAAABkAAQCAAAAAAIAAAAA", "X-Kept", "stays")
+	case "upg-tls": // RFC 2817 offer
+		add("Connection", "Upgrade", "Upgrade", "TLS/1.0", "X-Kept", "stays")
+	case "upg-foo":
+		add("X-Kept", "stays", "Connection", "upgrade", "Upgrade", "foo/2, bar")
+	case "upg-noconn": // an Upgrade field the Connection field does not list is no upgrade request at all
+		add("Connection", "keep-alive", "Upgrade", "websocket", "X-Kept", "stays")
 	}
 	if !cookieDone && c.HdrClass == "dups-identical" {
 		add("Cookie", "pref=1", "Cookie", sessionCookie, "Cookie", "pref=1")
@@ -327,7 +335,9 @@ func c17RandBody(r *rand.Rand, c *c17Case, thorough bool) {
 
 var c17Hosts = []string{"proxy.test", "proxy.test", "proxy.test", "proxy.test:8443", "Other.Example", "[::1]:4180", "10.1.2.3"}
 
-const c17RespClasses = 21 // 14..17 start with 103 Early Hints; 18..20 the upstream aborts (mid chunked body / before headers / short of its Content-Length)
+const c17RespClasses = 22 // 14..17 start with 103 Early Hints; 18..21 the upstream aborts (mid chunked body / before headers / short of its Content-Length / in the middle of its header block)
+
+const c17RespPartialHead = 21
 
 // response classes used only for WebSocket upgrade requests
 const (
@@ -337,6 +347,22 @@ const (
 	c17RespCache   = 41 // cacheable answer: Cache-Control / Expires / Pragma / Vary / ETag / Last-Modified
 	c17RespSlow    = 40 // headers at once, then 6 body chunks 300 ms apart (1.8 s in all)
 )
+
+// header classes carrying a protocol-upgrade offer that is NOT a WebSocket upgrade: ordinary requests
+var c17UpgradeClasses = []string{"upg-h2c", "upg-tls", "upg-foo", "upg-noconn"}
+
+// c17UpgradeOffer: the protocol list such a case offers in an Upgrade field its Connection field lists ("" = none).
+func c17UpgradeOffer(c *c17Case) string {
+	switch c.HdrClass {
+	case "upg-h2c":
+		return "h2c"
+	case "upg-tls":
+		return "TLS/1.0"
+	case "upg-foo":
+		return "foo/2, bar"
+	}
+	return ""
+}
 
 var c17WSHdrClasses = []string{"plain", "plain", "xff", "cookies", "forwarded", "unusual", "dups", "spoof-identity"}
 
@@ -414,6 +440,52 @@ func c17CoreCases(s *c17Set, thorough bool) []*c17Case {
 		out = append(out, &c17Case{Method: "GET", Path: c17PathFrom(b, "ws/a%20b"), Query: []string{"", "?", "?e", "?q=a+b&r=%zz"}[i%4], QClass: "plain", Host: "proxy.test:8443", HdrClass: "xff", BodyKind: "none", WS: true, Resp: c17RespTunnel + (i+1)%3})
 		out = append(out, &c17Case{Method: []string{"GET", "POST"}[i%2], Path: c17PathFrom(b, "abort"), Host: "proxy.test", HdrClass: "plain", BodyKind: "none", Resp: 18 + i%3})
 	}
+	for i, b := range s.Bases { // the upstream dies without answering (nothing sent / half a header block) under methods that must not be repeated
+		for k := 0; k < 2; k++ {
+			n := 2*i + k
+			c := &c17Case{Method: []string{"POST", "PUT", "PATCH", "DELETE"}[n%4], Path: c17PathFrom(b, "once"), Query: []string{"", "?op=transfer&n=1"}[(n/4)%2], Host: "proxy.test", HdrClass: "plain", BodyKind: "none",
+				Resp: []int{19, c17RespPartialHead}[(n/2)%2]}
+			if c.Query != "" {
+				c.QClass = "plain"
+			}
+			switch (n / 4) % 4 {
+			case 1:
+				c.BodyKind, c.BodyLen, c.BodySeed = "form", 60, int64(n)
+			case 2:
+				c.BodyKind, c.BodyLen, c.BodySeed, c.Chunked = "text", 3000, int64(n), true
+			case 3:
+				c.BodyKind, c.BodyLen, c.BodySeed = "bin", 40<<10, int64(n)
+			}
+			out = append(out, c)
+		}
+	}
+	for i, b := range s.Bases { // protocol-upgrade offers other than WebSocket: ordinary requests
+		cl := c17UpgradeClasses[i%len(c17UpgradeClasses)]
+		out = append(out, &c17Case{Method: "GET", Path: c17PathFrom(b, "offer"), Query: []string{"?x=1", ""}[i%2], QClass: []string{"plain", ""}[i%2], Host: "proxy.test", HdrClass: cl, BodyKind: "none", Resp: []int{0, 11, 1}[i%3]})
+		out = append(out, &c17Case{Method: "POST", Path: c17PathFrom(b, "offer/a%20b"), Query: "?k=mine&x=%2F", QClass: "plain", Host: "proxy.test:8443", HdrClass: c17UpgradeClasses[(i+1)%len(c17UpgradeClasses)], BodyKind: "form", BodyLen: 50, BodySeed: int64(i), Resp: 11})
+	}
+	for _, b := range s.Bases { // every file the harness created, under every base (only file upstreams will find them)
+		isFile := false
+		for _, d := range c17Decide(s.Ups, s.Raw, c17PathFrom(b, "plain.txt")) {
+			isFile = isFile || (d.Kind == "upstream" && d.Up.Kind == "file")
+		}
+		if !isFile || !strings.HasSuffix(b, "/") {
+			continue
+		}
+		names := c17FileNames()
+		for _, name := range c17FileNames() { // the same files as seen from an upstream that serves a sub-directory
+			for _, root := range []string{".well-known/", "sub/.dot/"} {
+				if strings.HasPrefix(name, root) {
+					names = append(names, strings.TrimPrefix(name, root))
+				}
+			}
+		}
+		for k, name := range names {
+			for _, strict := range []bool{false, true} {
+				out = append(out, &c17Case{Method: []string{"GET", "GET", "HEAD"}[(k+len(b))%3], Path: c17PathFrom(b, c17EscapeName(name, strict)), Host: "proxy.test", HdrClass: "plain", BodyKind: "none"})
+			}
+		}
+	}
 	for i, b := range s.Bases { // informational (1xx) responses before the final status
 		out = append(out, &c17Case{Method: []string{"GET", "POST", "HEAD", "PUT"}[i%4], Path: c17PathFrom(b, "hint"), Host: "proxy.test", HdrClass: "plain", BodyKind: "none", Resp: 14 + i%4})
 	}
@@ -445,8 +517,9 @@ func c17RandomCase(r *rand.Rand, s *c17Set, thorough bool) *c17Case {
 	switch k := r.Intn(100); {
 	case k < 3: // a few encoded-unclean targets (outside the property's quantifier; judged loosely)
 		c.Path = c17PathFrom(base, []string{"./x", "../x", "x//y", "x/./y", "x/../y", "/x"}[r.Intn(6)])
-	case k < 12 && (strings.Contains(base, "files") || strings.Contains(base, "docs")):
-		names := []string{"plain.txt", "a%20b.txt", "%C3%A9.txt", "a+b;c.txt", "~t@x,y.txt", "sub/x.txt", "big.bin", "A.txt", "%41.txt", "a=b&c.txt", "100%25.txt", "q%3Fmark.txt", "h%23ash.txt", "nope.txt", "a%2Bb%3Bc.txt", "plain.txt/"}
+	case k < 12 && (strings.Contains(base, "files") || strings.Contains(base, "docs") || strings.Contains(base, "/.")):
+		names := []string{".well-known/security.txt", ".hidden.txt", "%2Ehidden.txt", "sub/.dot/x.txt", "sub/%2Edot/.inner", "...dots/y.txt", "a..b.txt", ".well-known/nope", ".nope/x", "security.txt", "x.txt", ".inner", "sub/%5Bx%5D%7By%7D%5Ez%7C.txt",
+			"plain.txt", "a%20b.txt", "%C3%A9.txt", "a+b;c.txt", "~t@x,y.txt", "sub/x.txt", "big.bin", "A.txt", "%41.txt", "a=b&c.txt", "100%25.txt", "q%3Fmark.txt", "h%23ash.txt", "nope.txt", "a%2Bb%3Bc.txt", "plain.txt/"}
 		c.Path = c17PathFrom(base, names[r.Intn(len(names))])
 	default:
 		c.Path = c17PathFrom(base, c17Tail(r))
@@ -456,6 +529,9 @@ func c17RandomCase(r *rand.Rand, s *c17Set, thorough bool) *c17Case {
 	c.Method = c17Methods[r.Intn(len(c17Methods))]
 	c.Host = c17Hosts[r.Intn(len(c17Hosts))]
 	c.HdrClass = c17HdrClasses[r.Intn(len(c17HdrClasses))]
+	if r.Intn(100) < 6 {
+		c.HdrClass = c17UpgradeClasses[r.Intn(len(c17UpgradeClasses))]
+	}
 	c17RandBody(r, c, thorough)
 	c.Resp = c17RandResp(r)
 	if r.Intn(100) < 7 && !strings.Contains(c.Path, "big.bin") {
